@@ -25,17 +25,14 @@ impl Parser for Go {
         let mut actual_source = actual.get_content(source);
 
         if matches!(actual_source, ['g', 'o', ':', ..]) {
-            let Some(terminator) = source.iter().position(|c| *c == '\n') else {
+            // Skip the directive: continue at the end of its line. Both the line end and the
+            // remaining content are located in `actual_source`, which begins at `actual.start`.
+            let Some(terminator) = actual_source.iter().position(|c| *c == '\n') else {
                 return Vec::new();
             };
 
             actual.start += terminator;
-
-            let Some(new_source) = actual.try_get_content(actual_source) else {
-                return Vec::new();
-            };
-
-            actual_source = new_source
+            actual_source = &actual_source[terminator..];
         }
 
         let mut new_tokens = self.inner.parse(actual_source);
